@@ -111,7 +111,13 @@ impl G {
                 *budget -= 1;
                 return true;
             } else {
-                self.body.push(json!({"o":"unreachable"}));
+                // ways out that are neither a return nor a branch: unreachable, throw, tail call (void functions)
+                let o = match self.rng.gen_range(0..4) {
+                    0 => json!({"o":"throw"}),
+                    1 if self.arity == 0 => json!({"o":"rcall","k":3}),
+                    _ => json!({"o":"unreachable"}),
+                };
+                self.body.push(o);
                 *budget -= 1;
                 return true;
             }
